@@ -4894,10 +4894,15 @@ func (l *Lowerer) evalConstantBinaryExpr(e *parser.BinaryExpr) (ir.ScalarKind, i
 	if err != nil {
 		return 0, 0, fmt.Errorf("right operand: %w", err)
 	}
-	// Result kind: unsigned only if both operands are unsigned
+	// Result kind: unsigned as soon as one operand is (the other is then
+	// unsigned too or an abstract integer, which converts); a shift takes the
+	// kind of its left operand, the amount is always unsigned.
 	resultKind := ir.ScalarSint
-	if leftKind == ir.ScalarUint && rightKind == ir.ScalarUint {
+	if leftKind == ir.ScalarUint || rightKind == ir.ScalarUint {
 		resultKind = ir.ScalarUint
+	}
+	if e.Op == parser.TokenLessLess || e.Op == parser.TokenGreaterGreater {
+		resultKind = leftKind
 	}
 	switch e.Op {
 	case parser.TokenPlus:
